@@ -35,9 +35,10 @@ type msClassDef struct {
 // msInt53Keys adds the representations of +-2**53 that goja holds as valueFloat (results of integer arithmetic that
 // leaves the safe range, literals above 2**53). On the unchanged tree valueInt(2**53) and valueFloat(2**53) are the
 // same Number but hash differently, so Map/Set treat them as different keys: `new Set([2**53]).has(2**53+1)` is false.
-// That is a genuine defect reported separately; the representations stay out of the default pool so that the engine
-// is silent on the unchanged tree. Set VERIF_C18_INT53=1 (or flip the default once goja is fixed) to include them.
-var msInt53Keys = os.Getenv("VERIF_C18_INT53") == "1"
+// That was a genuine defect, found by this engine and repaired in /repo (commit 454692a, see known_findings.json),
+// together with the same problem for `x = -0; x++`, `-(-0)` and `x = -0; x--`. The representations are now part of the
+// default pool (VERIF_C18_INT53=0 removes them again).
+var msInt53Keys = os.Getenv("VERIF_C18_INT53") != "0"
 
 func msNum(f float64) string {
 	if f == 0 && math.Signbit(f) {
@@ -74,9 +75,11 @@ func msClassDefs() []msClassDef {
 		half--
 	}
 	return []msClassDef{
-		{name: "num 1", weight: 4, export: msNum(1), reps: []string{"1", "0.5+0.5", "Math.sqrt(1)", "GO_F1", `Number("1.0")`, "new Float64Array([1])[0]"}},
+		{name: "num 1", weight: 4, export: msNum(1), reps: []string{"1", "0.5+0.5", "Math.sqrt(1)", "GO_F1", `Number("1.0")`, "new Float64Array([1])[0]"},
+			gated: []string{"(function(){ var x = -0; x++; return x; })()", "(function(){ var x = -0; return ++x; })()"}},
 		{name: `str "1"`, weight: 3, export: "s:1", reps: []string{`"1"`, "String(1)", `"" + (0.5+0.5)`, "GO_S1"}},
-		{name: "num 0", weight: 4, export: msNum(0), reps: []string{"0", "-0", "0*-1", "0.5-0.5", "GO_NEGZERO", "Math.round(-0.2)"}},
+		{name: "num 0", weight: 4, export: msNum(0), reps: []string{"0", "-0", "0*-1", "0.5-0.5", "GO_NEGZERO", "Math.round(-0.2)"},
+			gated: []string{"-(-0)", "-(0*-1)"}},
 		{name: "NaN", weight: 4, export: "n:NaN", reps: []string{"NaN", "0/0", "Math.sqrt(-1)", "GO_NAN", `Number("x")`, "Infinity-Infinity"}},
 		{name: `str "abc"`, weight: 3, export: "s:abc", reps: []string{`"abc"`, `"a"+"bc"`, `["a","b","c"].join("")`, "GO_ABC", `"xabc".substring(1)`}},
 		{name: "str non-ASCII short", weight: 3, export: "s:" + msGoHello, reps: []string{jsQuote(msGoHello), `"h"+String.fromCharCode(233)+"llo"`, "GO_HELLO", jsQuote(msGoHello+" wörld") + ".slice(0,5)"}},
@@ -99,7 +102,8 @@ func msClassDefs() []msClassDef {
 		{name: `str "0"`, weight: 1, export: "s:0", reps: []string{`"0"`, "String(0)", "String(-0)", "GO_S0"}},
 		{name: `str "NaN"`, weight: 1, export: "s:NaN", reps: []string{`"NaN"`, "String(NaN)", `"" + (0/0)`}},
 		{name: "num 2**63", weight: 2, export: msNum(9223372036854775808), reps: []string{"9223372036854775808", "2**63", "4611686018427387904*2"}},
-		{name: "num -1", weight: 1, export: msNum(-1), reps: []string{"-1", "-0.5-0.5", "~0"}},
+		{name: "num -1", weight: 1, export: msNum(-1), reps: []string{"-1", "-0.5-0.5", "~0"},
+			gated: []string{"(function(){ var x = -0; x--; return x; })()"}},
 		{name: "Infinity", weight: 1, export: "n:+Inf", reps: []string{"Infinity", "1/0", "-1/-0", "Number.POSITIVE_INFINITY"}},
 		{name: "bigint 2n**64n", weight: 1, export: "big:18446744073709551616", reps: []string{"2n**64n", "18446744073709551616n", `BigInt("0x10000000000000000")`}},
 		{name: "num -(2**53)", weight: 2, export: msNum(-9007199254740992), reps: []string{"-9007199254740992", "-(2**53)", "-9007199254740991-1"},
